@@ -468,6 +468,7 @@ type runResult struct {
 	endKey  string
 	maxLib  uint64
 	forked  bool
+	probes  int
 	vacuous bool // a deviation named a block that was never produced
 }
 
@@ -516,6 +517,7 @@ func runDevs(c cfg, devs []dev) runResult {
 	type pend struct{ bi, r int }
 	pending := make([][]pend, c.N)
 	used := 0
+	var dormant *types.Block
 	for s := 1; s <= c.T; s++ {
 		before := len(w.blocks)
 		owner := s % c.N
@@ -591,9 +593,110 @@ func runDevs(c cfg, devs []dev) runResult {
 				return res
 			}
 		}
+		if s == 1 {
+			// a dormant side block: a sibling of the first block (child of genesis, signed by the
+			// owner of slot T+1) is stored by every node while nothing is irreversible yet. It never
+			// becomes the best block (equal height); the veto probe at the end of the run extends it.
+			slot := c.T + 1
+			x, err := w.omni.ProduceAt(w.omni.Genesis(), nil, slot%c.N, nk.SlotTs(w.net.SlotBase()+int64(slot), 0), 1)
+			if err != nil {
+				panic(fmt.Sprintf("dormant block: %v", err))
+			}
+			dormant = x.Block
+			for _, n := range w.nodes {
+				if n != nil && n.Best().BlockNo() >= 1 {
+					_ = n.Deliver(dormant)
+				}
+			}
+		}
 	}
 	if used < len(devs) {
 		res.vacuous = true // e.g. a delay of the second block of a slot without equivocation
+	}
+	// veto probe: at the end of the run every correct node that reports a LIB >= 1 is offered a
+	// competing branch that forks BELOW its LIB and is longer than its main chain, every block
+	// signed by the owner of its (later) slot. Such a branch cannot arise while fewer than a third
+	// of the producers misbehave, but the refusal rule is unconditional: blocks numbered at or
+	// below the LIB and reorganisations forking below it are refused.
+	for i, n := range w.nodes {
+		if n == nil {
+			continue
+		}
+		pre := observe(n)
+		if pre.libNo < 1 {
+			continue
+		}
+		parent := w.omni.Genesis()
+		if pre.libNo >= 2 {
+			bi, ok := w.byID[pre.main[pre.libNo-1]]
+			if !ok {
+				continue
+			}
+			parent = w.blocks[bi].blk
+		}
+		need := len(pre.main) - int(pre.libNo) + 1 // one block more than the main chain has above the fork point
+		slot := c.T + 40 // slots of the probe branch do not collide with the dormant block's
+		cur := parent
+		var branch []*types.Block
+		for k := 0; k < need; k++ {
+			slot++
+			p := slot % c.N
+			b, err := w.omni.ProduceAt(cur, nil, p, nk.SlotTs(w.net.SlotBase()+int64(slot), 0), 1)
+			if err != nil {
+				panic(fmt.Sprintf("probe produce: %v", err))
+			}
+			branch = append(branch, b.Block)
+			cur = b.Block
+		}
+		for k, b := range branch {
+			err := n.Deliver(b)
+			res.events++
+			if k == 0 && err == nil {
+				if _, e := n.CS.VerifGetBlock(b.BlockHash()); e == nil {
+					res.msg = fmt.Sprintf("veto probe: node %d accepted and stored a block numbered %d although its irreversible block is at height %d", i, b.BlockNo(), pre.libNo)
+					return res
+				}
+			}
+		}
+		post := observe(n)
+		res.probes++
+		for h := 0; h < len(pre.main); h++ {
+			if h >= len(post.main) || post.main[h] != pre.main[h] {
+				res.msg = fmt.Sprintf("veto probe: node %d (irreversible height %d) replaced its main-chain block at height %d after being offered a longer branch forking below the irreversible block", i, pre.libNo, h)
+				return res
+			}
+		}
+		if post.libNo < pre.libNo {
+			res.msg = fmt.Sprintf("veto probe: node %d: irreversible height decreased %d -> %d", i, pre.libNo, post.libNo)
+			return res
+		}
+		// second probe: the dormant side block (stored before anything was irreversible, forking at
+		// genesis, i.e. below the LIB by now) grows longer than the main chain: every new block is
+		// numbered above the LIB, so only the reorganisation veto stands between it and the main chain
+		if dormant != nil {
+			if _, e := n.CS.VerifGetBlock(dormant.BlockHash()); e == nil {
+				cur := dormant
+				slot := c.T + 1
+				for k := 1; k < len(pre.main); k++ {
+					slot++
+					b, err := w.omni.ProduceAt(cur, nil, slot%c.N, nk.SlotTs(w.net.SlotBase()+int64(slot), 0), 1)
+					if err != nil {
+						panic(fmt.Sprintf("probe produce: %v", err))
+					}
+					_ = n.Deliver(b.Block)
+					res.events++
+					cur = b.Block
+				}
+				post2 := observe(n)
+				res.probes++
+				for h := 0; h < len(pre.main); h++ {
+					if h >= len(post2.main) || post2.main[h] != pre.main[h] {
+						res.msg = fmt.Sprintf("veto probe: node %d (irreversible height %d) replaced its main-chain block at height %d when a side branch forking at genesis grew longer than the main chain", i, pre.libNo, h)
+						return res
+					}
+				}
+			}
+		}
 	}
 	seenH := map[uint64]bool{}
 	for _, b := range w.blocks {
@@ -656,6 +759,7 @@ func explore(ctx *xplor.Ctx, c cfg, k, shard, nshards int) {
 			if r.vacuous {
 				ctx.Count("runs_with_a_vacuous_deviation", 1)
 			}
+			ctx.Count("veto_probes", int64(r.probes))
 			ctx.Count(fmt.Sprintf("runs_with_%d_deviations", len(cur)), 1)
 			if r.msg != "" {
 				ctx.Violation(sigOf(c, cur, r.msg), fmt.Sprintf("%+v deviations %v: %s", c, devList(cur), r.msg), replay{c, cur})
